@@ -16,6 +16,8 @@ history is rejected) and `C30_accepted_resyncs` hold.
 -/
 import SerfProofs.Lemmas.AgentTags
 import SerfModel.Gen.AgentSetTags
+import SerfModel.Gen.AgentTagsSrc
+import SerfModel.Model.SourceShape
 namespace SerfProofs.C30
 open SerfModel SerfModel.AgentTags SerfProofs.AgentTags
 
@@ -187,5 +189,152 @@ theorem C30_persisted_counterexample :
       (run ⟨true, false⟩ ⟨[([114], [119])], [([114], [119])]⟩ [overLimitEdit]).effective ∧
     restart (run ⟨true, false⟩ ⟨[([114], [119])], [([114], [119])]⟩ [overLimitEdit]) = none := by
   decide
+
+/-! ## heap view: tags in effect = tags gossiped = tags file
+
+(see `SerfModel.AgentTags.Heap`).  With a handler that computes the edit in a fresh map and
+the order "serf.SetTags first, file on success" the three copies agree after every step of
+every history, rejected edits included; both facts are regenerated from the source. -/
+
+/-- the value view is the heap view of a handler that builds a fresh map -/
+theorem heapStep_fresh (sh : SetTagsShape) (h : Heap) (e : TagEdit) :
+    (heapStep ⟨true⟩ sh h e).2 = (step sh ⟨h.conf, h.file⟩ e).2 ∧
+    (heapStep ⟨true⟩ sh h e).1.conf = (step sh ⟨h.conf, h.file⟩ e).1.effective ∧
+    (heapStep ⟨true⟩ sh h e).1.file = (step sh ⟨h.conf, h.file⟩ e).1.file := by
+  rcases sh with ⟨a, b⟩
+  unfold heapStep step setTags
+  cases a <;> cases b <;> cases hf : fits (edit h.conf e.set e.del) <;> simp [hf]
+
+theorem heapStep_inv (hs : HandleShape) (sh : SetTagsShape) (hf : hs.freshMap = true) (hsf : sh.SerfFirst = true)
+    (h : Heap) (e : TagEdit) (h1 : h.conf = h.gossiped) (h2 : h.gossiped = h.file) :
+    (heapStep hs sh h e).1.conf = (heapStep hs sh h e).1.gossiped ∧
+    (heapStep hs sh h e).1.gossiped = (heapStep hs sh h e).1.file := by
+  rcases sh with ⟨a, b⟩
+  rcases hs with ⟨f⟩
+  simp only at hf
+  subst hf
+  unfold SetTagsShape.SerfFirst at hsf
+  simp only [Bool.and_eq_true, Bool.not_eq_eq_eq_not, Bool.not_true] at hsf
+  obtain ⟨ha, hb⟩ := hsf
+  subst ha; subst hb
+  unfold heapStep
+  cases hfit : fits (edit h.conf e.set e.del) <;> simp [hfit, h1, h2]
+
+/-- **Tags in effect = tags gossiped = tags file, after every prefix of every edit history,
+including rejected edits** — for a handler that builds a fresh map (`hs.freshMap`) and the
+order "serf.SetTags first, file only on success" (`sh.SerfFirst`). -/
+theorem C30_three_way (hs : HandleShape) (sh : SetTagsShape) (hf : hs.freshMap = true) (hsf : sh.SerfFirst = true)
+    (ops : List TagEdit) (h : Heap) (h1 : h.conf = h.gossiped) (h2 : h.gossiped = h.file) (n : Nat) :
+    (heapRun hs sh h (ops.take n)).conf = (heapRun hs sh h (ops.take n)).gossiped ∧
+    (heapRun hs sh h (ops.take n)).gossiped = (heapRun hs sh h (ops.take n)).file := by
+  generalize ops.take n = l
+  induction l generalizing h with
+  | nil => exact ⟨h1, h2⟩
+  | cons e rest ih =>
+    have := heapStep_inv hs sh hf hsf h e h1 h2
+    exact ih _ this.1 this.2
+
+example : (⟨true⟩ : HandleShape).freshMap = true ∧ (⟨false, true⟩ : SetTagsShape).SerfFirst = true := by decide
+
+/-- the handler of the current tree builds a fresh map (regenerated fact) -/
+theorem C30_current_tree_fresh_map : SerfModel.Gen.AgentTagsSrc.freshMap = true := by decide
+
+/-- `C30_three_way` at the shapes regenerated from the current tree. -/
+theorem C30_three_way_current_tree (ops : List TagEdit) (h : Heap) (h1 : h.conf = h.gossiped) (h2 : h.gossiped = h.file)
+    (n : Nat) :
+    let r := heapRun ⟨SerfModel.Gen.AgentTagsSrc.freshMap⟩ SerfModel.Gen.AgentSetTags.shape h (ops.take n)
+    r.conf = r.gossiped ∧ r.gossiped = r.file :=
+  C30_three_way _ _ C30_current_tree_fresh_map C30_current_tree_serf_first ops h h1 h2 n
+
+/-- … and the next start then comes back with the same three copies. -/
+theorem C30_heap_restart_exact (h : Heap) (h1 : h.conf = h.gossiped) (h2 : h.gossiped = h.file)
+    (hf : fits h.gossiped = true) : heapRestart h = some h := by
+  cases h with
+  | mk c g f =>
+    simp only at h1 h2 hf
+    subst h1; subst h2
+    simp [heapRestart, hf]
+
+/-- the gossiped tags always fit the limit (any shapes) -/
+theorem C30_gossiped_fits (hs : HandleShape) (sh : SetTagsShape) (ops : List TagEdit) (h : Heap)
+    (hf : fits h.gossiped = true) : fits (heapRun hs sh h ops).gossiped = true := by
+  induction ops generalizing h with
+  | nil => exact hf
+  | cons e rest ih =>
+    apply ih
+    unfold heapStep
+    simp only
+    split <;> split <;> simp_all
+
+set_option maxRecDepth 20000 in
+/-- COUNTEREXAMPLE for a handler that reuses the live map when nothing is deleted (seeded change
+C30-b), even with the safe SetTags order: an over-limit edit without deletions is rejected, the
+gossiped tags and the file keep the old tags, but the map `SerfConfig().Tags` returns — the base
+of the next edit — already holds the rejected tags. -/
+theorem C30_aliasing_counterexample :
+    (heapStep ⟨false⟩ ⟨false, true⟩ ⟨[([114], [119])], [([114], [119])], [([114], [119])]⟩ overLimitEdit).2 = false ∧
+    (heapStep ⟨false⟩ ⟨false, true⟩ ⟨[([114], [119])], [([114], [119])], [([114], [119])]⟩ overLimitEdit).1.conf ≠
+      (heapStep ⟨false⟩ ⟨false, true⟩ ⟨[([114], [119])], [([114], [119])], [([114], [119])]⟩ overLimitEdit).1.gossiped ∧
+    (heapStep ⟨false⟩ ⟨false, true⟩ ⟨[([114], [119])], [([114], [119])], [([114], [119])]⟩ overLimitEdit).1.gossiped =
+      (heapStep ⟨false⟩ ⟨false, true⟩ ⟨[([114], [119])], [([114], [119])], [([114], [119])]⟩ overLimitEdit).1.file := by
+  decide
+
+/-! ## the remaining hypotheses are necessary -/
+
+/-- `C30_edit` needs maps without duplicate keys (what Go maps are): on a "set" list with a
+repeated key the first entry is found by lookup while the copy loop lets the last one win. -/
+theorem C30_edit_nodup_needed :
+    alookup (edit [] [([1], [10]), ([1], [11])] []) [1] = some [11] ∧
+    alookup ([([1], [10]), ([1], [11])] : Tags) [1] = some [10] := by decide
+
+set_option maxRecDepth 20000 in
+/-- the start condition `file = tags in effect` cannot be dropped: a rejected first edit keeps
+a difference that was there before -/
+theorem C30_start_condition_needed :
+    (run ⟨false, true⟩ ⟨[([114], [119])], []⟩ [overLimitEdit]).file ≠
+      (run ⟨false, true⟩ ⟨[([114], [119])], []⟩ [overLimitEdit]).effective := by decide
+
+/-! ## the decisive shapes and constants of the source (regenerated on every run) -/
+
+section Src
+open SerfModel.SourceShape SerfModel.Gen
+
+/-- `edit`: a fresh map; every current tag is copied unless one of the delete keys equals it
+(`delTag`, `keep`); then the set tags are copied over it (`mapsCopy`); that map goes to
+`Agent.SetTags` (seeded C30-b used the live map when nothing is deleted) -/
+theorem C30_src_handle_tags :
+    AgentTagsSrc.tagsBindings = ["tags := make(map[string]string)"] ∧
+    hasBlock ["tags := make(map[string]string)", "for key, val := range i.agent.SerfConfig().Tags {", "var delTag bool",
+      "for _, delkey := range req.DeleteTags {", "delTag = (delTag || delkey == key)", "}", "if !delTag {",
+      "tags[key] = val", "}", "}", "maps.Copy(tags, req.Tags)", "err := i.agent.SetTags(tags)"] AgentTagsSrc.handleTags = true := by
+  decide
+
+/-- `setTags` / `fits` / `restart`: Serf checks the encoded size (`>` against MetaMaxSize) BEFORE
+installing the map and updating the node; `serf.Create` applies the same check at start -/
+theorem C30_src_serf_set_tags :
+    AgentTagsSrc.serfSetTags = ["if len(s.encodeTags(tags)) > memberlist.MetaMaxSize {",
+      "return fmt.Errorf(\"Encoded length of tags exceeds limit of %d bytes\", memberlist.MetaMaxSize)", "}",
+      "s.config.Tags = tags", "return s.memberlist.UpdateNode(s.config.BroadcastTimeout)"] ∧
+    AgentTagsSrc.createTagChecks = ["if len(serf.encodeTags(conf.Tags)) > memberlist.MetaMaxSize {"] := by decide
+
+/-- `encodeTags`: the magic byte, then the map through go-msgpack's DEFAULT handle (legacy raw
+string headers, no str8), for protocol ≥ 3; constants equal the model's -/
+theorem C30_src_constants :
+    AgentTagsSrc.tagMagicByte = SerfModel.AgentTags.tagMagicByte.toNat ∧
+    AgentTagsSrc.metaMaxSize = SerfModel.AgentTags.metaMaxSize ∧
+    hasBlock ["var buf bytes.Buffer", "buf.WriteByte(tagMagicByte)", "enc := codec.NewEncoder(&buf, &codec.MsgpackHandle{})",
+      "if err := enc.Encode(tags); err != nil {"] AgentTagsSrc.encodeTags = true ∧
+    hasBlock ["if s.ProtocolVersion() < 3 {", "role := tags[\"role\"]", "return []byte(role)", "}"] AgentTagsSrc.encodeTags = true := by
+  decide
+
+/-- the tags file is the JSON of exactly the map handed over, and is read back into the tags of
+the configuration (the file is modelled as the map written) -/
+theorem C30_src_tags_file :
+    once "encoded, err := json.MarshalIndent(tags, \"\", \" \")" AgentTagsSrc.writeTagsFile = true ∧
+    once "if err = os.WriteFile(a.agentConf.TagsFile, encoded, 0600); err != nil {" AgentTagsSrc.writeTagsFile = true ∧
+    once "if err := json.Unmarshal(tagData, &a.conf.Tags); err != nil {" AgentTagsSrc.loadTagsFile = true ∧
+    AgentTagsSrc.writeTagsFile.length = 8 ∧ AgentTagsSrc.loadTagsFile.length = 13 := by decide
+
+end Src
 
 end SerfProofs.C30
